@@ -16,12 +16,29 @@
   * `pretty_is_compact`: the pretty-printed output with insignificant whitespace removed is exactly the
                          compact output.
   * `roundtrip`        : decoding the output with the decoder model gives the tokens back up to number typing.
+
+  Status.  `escape_unquote`, `escape_is_body`, `enc_accepts`, `pretty_is_compact` are proved as stated.
+  `enc_valid` and `roundtrip` depend on one fact that is not proved here: that the model's float text
+  `FloatText.jsonFloat` (a big-number re-implementation of strconv, validated by the harness) is always a
+  complete RFC 8259 number that `numTok` can type without overflow.  That fact is the *definition*
+  `FloatTextOk` (a hypothesis, not an axiom); per tree it is `FloatsOk v` (vacuous without float tokens).
+    - `enc_valid_statement`, `roundtrip_statement` : the statements as first written (kept as `def … : Prop`)
+    - `enc_valid_partial`, `roundtrip_partial`     : the same conclusions under `FloatsOk v`
+    - `enc_valid_iff_floatTextOk`                  : `enc_valid_statement ↔ FloatTextOk`
+    - `roundtrip_of_floatTextOk`                   : `FloatTextOk → roundtrip_statement`
+  Nothing was found false.  The hypotheses `hb` (bytes < 256) of the two escape theorems are not needed.
+
+  Machine- and text-level lemmas live in RefmtProofs/Lemmas/{Utf8,Escape,JsonNum,FloatChars,JsonText,JsonEncL,
+  JsonParseL,JsonDecL}.lean; `txtV` there is the output as a function of the tree, `retV` the retyped tree.
 -/
 import RefmtModel
+import RefmtProofs.Lemmas.JsonEncL
+import RefmtProofs.Lemmas.JsonParseL
+import RefmtProofs.Lemmas.JsonDecL
 set_option linter.unusedSimpArgs false
 set_option linter.unusedVariables false
 namespace Refmt.C03
-open Refmt Refmt.JsonEnc
+open Refmt Refmt.JsonEnc Refmt.C03L
 
 /-! ### The string escaper -/
 
@@ -29,8 +46,8 @@ open Refmt Refmt.JsonEnc
 def escaped (s : Bytes) : Bytes := (escLoop s []).flatten
 
 theorem escape_unquote (s : Bytes) (hb : ∀ x ∈ s, x < 256) :
-    JsonDec.parseString ((escaped s).length + 1) (escaped s) = some (toValidUtf8 s) := by
-  sorry
+    JsonDec.parseString ((escaped s).length + 1) (escaped s) = some (toValidUtf8 s) :=
+  (esc_Esc s).unquote _ (Nat.lt_succ_self _)
 
 /-- RFC 8259 string body, as in C05 -/
 def isStringBody : Bytes → Bool
@@ -41,9 +58,23 @@ def isStringBody : Bytes → Bool
     (e == 34 || e == 92 || e == 47 || e == 98 || e == 102 || e == 110 || e == 114 || e == 116) && isStringBody r
   | c :: r => c != 34 && c != 92 && c ≥ 0x20 && isStringBody r
 
+theorem isStringBody_of_SBody {e : Bytes} (h : SBody e) : isStringBody e = true := by
+  induction h with
+  | nil => rfl
+  | plain c r h1 h2 h3 _ ih =>
+    unfold isStringBody
+    split
+    · simp_all
+    · simp_all
+    · simp_all
+    · rename_i heq; simp at heq; simp_all
+  | esc x r hx _ ih =>
+    rcases hx with rfl | rfl | rfl | rfl | rfl <;> simp [isStringBody, ih]
+  | uni a b c d r ha hb hc hd _ ih => simp [isStringBody, ha, hb, hc, hd, ih]
+
 theorem escape_is_body (s : Bytes) (hb : ∀ x ∈ s, x < 256) :
-    isStringBody (escaped s) = true ∧ toValidUtf8 (escaped s) = escaped s := by
-  sorry
+    isStringBody (escaped s) = true ∧ toValidUtf8 (escaped s) = escaped s :=
+  ⟨isStringBody_of_SBody (esc_Esc s).body, (esc_Esc s).valid⟩
 
 /-! ### Domain -/
 
@@ -78,31 +109,295 @@ def cfgOk (c : Cfg) : Bool := wsOnly c.lineBytes && wsOnly c.indent
 /-- all bytes written for a tree under a configuration (the model's float text is `FloatText.jsonFloat`) -/
 def out (c : Cfg) (v : TV) : Bytes := (runOut (step c FloatText.jsonFloat) init v.flatten).2.flatten
 
-/-! ### Theorems -/
+/-! ### The encoder writes `txtV` -/
 
-theorem enc_accepts (c : Cfg) (v : TV) (h : JWF v = true) :
-    (runOut (step c FloatText.jsonFloat) init v.flatten).1 =
-      List.replicate (v.flatten.length - 1) Flag.cont ++ [Flag.done] := by
-  sorry
+theorem scalar_encOk {t : Tok} (h : jsonScalarOk t = true) : encOk t.body = true := by
+  unfold jsonScalarOk at h
+  cases hb : t.body <;> simp [hb] at h <;> simp [encOk, h]
+
+theorem cfgOk_ws {c : Cfg} (h : cfgOk c = true) : CfgWs c := by
+  simp only [cfgOk, wsOnly, Bool.and_eq_true, List.all_eq_true] at h
+  exact ⟨h.1, h.2⟩
+
+/-- a map key of the domain is a string token -/
+theorem key_form {k : TV}
+    (h : (match k with | .scalar t => (match t.body with | .str s => s.all (· < 256) | _ => false) | _ => false) = true) :
+    ∃ s tag, k = .scalar ⟨.str s, tag⟩ := by
+  cases k with
+  | scalar t =>
+    obtain ⟨body, tag⟩ := t
+    cases body <;> simp at h
+    exact ⟨_, _, rfl⟩
+  | arr _ _ _ => simp at h
+  | map _ _ _ => simp at h
+
+mutual
+  /-- one value in array-item position (`inArr`) or map-value position -/
+  theorem encV (c : Cfg) : ∀ (v : TV), JWF v = true → ∀ (inArr : Bool) (r : List Phase) (sm : Bool),
+      Runs c (vS inArr r sm) v.flatten (vPre c inArr r sm ++ txtV c (r.length + 1) v) (vE inArr r)
+    | .scalar t, h, inArr, r, sm => by
+      have := step_scalar c inArr r sm t (scalar_encOk (by simpa [JWF] using h))
+      simpa [TV.flatten, txtV] using this
+    | .arr tag len items, h, inArr, r, sm => by
+      have h1 := step_arrOpen c inArr r sm len tag
+      have h2 := encL c items (by simpa [JWF] using h) (topPh inArr :: r) false
+      have h3 := step_arrClose c (topPh inArr) r (false || !items.isEmpty)
+      have := (h1.append h2).append h3
+      simpa [TV.flatten, txtV, vE] using this
+    | .map tag len es, h, inArr, r, sm => by
+      have h1 := step_mapOpen c inArr r sm len tag
+      have h2 := encE c es (by simpa [JWF] using h) (topPh inArr :: r) false
+      have h3 := step_mapClose c (topPh inArr) r (false || !es.isEmpty)
+      have := (h1.append h2).append h3
+      simpa [TV.flatten, txtV, vE] using this
+  theorem encL (c : Cfg) : ∀ (vs : List TV), JWFl vs = true → ∀ (r : List Phase) (sm : Bool),
+      Runs c ⟨.arr :: r, .arr, sm⟩ (TV.flattenList vs) (txtL c (r.length + 1) sm vs) ⟨.arr :: r, .arr, sm || !vs.isEmpty⟩
+    | [], _, r, sm => by simpa [TV.flattenList, txtL] using Runs.nil c _
+    | v :: vs, h, r, sm => by
+      simp only [JWFl, Bool.and_eq_true] at h
+      have h1 := encV c v h.1 true r sm
+      have h2 := encL c vs h.2 r true
+      have := h1.append h2
+      simpa [TV.flattenList, txtL, vS, vE, vPre, topPh] using this
+  theorem encE (c : Cfg) : ∀ (es : List (TV × TV)), JWFe es = true → ∀ (r : List Phase) (sm : Bool),
+      Runs c ⟨.mapKey :: r, .mapKey, sm⟩ (TV.flattenEntries es) (txtE c (r.length + 1) sm es)
+        ⟨.mapKey :: r, .mapKey, sm || !es.isEmpty⟩
+    | [], _, r, sm => by simpa [TV.flattenEntries, txtE] using Runs.nil c _
+    | (k, v) :: es, h, r, sm => by
+      simp only [JWFe, Bool.and_eq_true] at h
+      obtain ⟨⟨hk, hv⟩, hes⟩ := h
+      obtain ⟨s, tag, rfl⟩ := key_form hk
+      have h1 := step_key c r sm s tag
+      have h2 := encV c v hv false r true
+      have h3 := encE c es hes r true
+      have := (h1.append h2).append h3
+      simpa [TV.flattenEntries, TV.flatten, txtE, keyTxt, scalarTxt, vS, vE, vPre, topPh] using this
+end
 
 /-- trailing bytes after the value: containers are followed by `Line`, scalars by nothing -/
 def trailer (c : Cfg) : TV → Bytes
   | .scalar _ => []
   | _ => c.lineBytes
 
-theorem enc_valid (c : Cfg) (v : TV) (h : JWF v = true) (hc : cfgOk c = true) :
+/-- flags and bytes of a whole run -/
+theorem run_eq (c : Cfg) (v : TV) (h : JWF v = true) :
+    (runOut (step c FloatText.jsonFloat) init v.flatten).1 =
+      List.replicate (v.flatten.length - 1) Flag.cont ++ [Flag.done] ∧
+    out c v = txtV c 0 v ++ trailer c v := by
+  unfold out
+  cases v with
+  | scalar t =>
+    obtain ⟨hf, hw⟩ := top_scalar c t (scalar_encOk (by simpa [JWF] using h))
+    simp only [stp] at hf hw
+    simp [TV.flatten, runOut, hf, hw, txtV, trailer]
+  | arr tag len items =>
+    have h1 := top_arrOpen c len tag
+    have h2 := encL c items (by simpa [JWF] using h) [] false
+    obtain ⟨hf, hw⟩ := top_arrClose c (false || !items.isEmpty)
+    have := (h1.append h2).finish hf hw
+    simp only [stp] at this
+    simp only [TV.flatten, List.singleton_append, List.cons_append, List.nil_append] at this ⊢
+    rw [this.1, this.2]
+    simp [txtV, trailer]
+  | map tag len es =>
+    have h1 := top_mapOpen c len tag
+    have h2 := encE c es (by simpa [JWF] using h) [] false
+    obtain ⟨hf, hw⟩ := top_mapClose c (false || !es.isEmpty)
+    have := (h1.append h2).finish hf hw
+    simp only [stp] at this
+    simp only [TV.flatten, List.singleton_append, List.cons_append, List.nil_append] at this ⊢
+    rw [this.1, this.2]
+    simp [txtV, trailer]
+
+/-! ### Removing the insignificant whitespace -/
+
+mutual
+  theorem stripV (c : Cfg) (hc : CfgWs c) : ∀ (v : TV), JWF v = true → ∀ (d : Nat) (rest : Bytes),
+      Spec.Json.stripWs (txtV c d v ++ rest) false false = txtV ⟨none, []⟩ d v ++ Spec.Json.stripWs rest false false
+    | .scalar t, h, d, rest => by
+      simpa [txtV] using stripWs_scalar t.body (scalar_encOk (by simpa [JWF] using h)) rest
+    | .arr tag len items, h, d, rest => by
+      have h2 := stripL c hc items (by simpa [JWF] using h) (d + 1) false
+      simp only [txtV, List.cons_append, List.append_assoc]
+      rw [stripWs_open 91 (Or.inl rfl), h2, stripWs_close hc _ _ 93 (Or.inl rfl), closeSep_compact]
+      simp
+    | .map tag len es, h, d, rest => by
+      have h2 := stripE c hc es (by simpa [JWF] using h) (d + 1) false
+      simp only [txtV, List.cons_append, List.append_assoc]
+      rw [stripWs_open 123 (Or.inr rfl), h2, stripWs_close hc _ _ 125 (Or.inr rfl), closeSep_compact]
+      simp
+  theorem stripL (c : Cfg) (hc : CfgWs c) : ∀ (vs : List TV), JWFl vs = true → ∀ (d : Nat) (sm : Bool) (rest : Bytes),
+      Spec.Json.stripWs (txtL c d sm vs ++ rest) false false = txtL ⟨none, []⟩ d sm vs ++ Spec.Json.stripWs rest false false
+    | [], _, d, sm, rest => by simp [txtL]
+    | v :: vs, h, d, sm, rest => by
+      simp only [JWFl, Bool.and_eq_true] at h
+      simp only [txtL, List.append_assoc]
+      rw [stripWs_sep hc, stripV c hc v h.1, stripL c hc vs h.2]
+  theorem stripE (c : Cfg) (hc : CfgWs c) : ∀ (es : List (TV × TV)), JWFe es = true →
+      ∀ (d : Nat) (sm : Bool) (rest : Bytes),
+      Spec.Json.stripWs (txtE c d sm es ++ rest) false false = txtE ⟨none, []⟩ d sm es ++ Spec.Json.stripWs rest false false
+    | [], _, d, sm, rest => by simp [txtE]
+    | (k, v) :: es, h, d, sm, rest => by
+      simp only [JWFe, Bool.and_eq_true] at h
+      obtain ⟨⟨hk, hv⟩, hes⟩ := h
+      obtain ⟨s, tag, rfl⟩ := key_form hk
+      simp only [txtE, List.append_assoc, keyTxt]
+      rw [stripWs_sep hc, stripWs_scalar (.str s) rfl, stripWs_colon, stripV c hc v hv, stripE c hc es hes, colon_compact]
+      simp
+end
+
+/-! ### Reading the text back -/
+
+/-- The float hypothesis for one tree: for every float token, the model's float text
+    (`FloatText.jsonFloat`, a re-implementation of strconv validated by the harness) is a complete
+    RFC 8259 number for the scanners and `numTok` can type it (`C03L.floatOk`, a decidable check). -/
+def FloatsOk (v : TV) : Prop := ∀ t ∈ v.flatten, ∀ x, t.body = .float x → floatOk x = true
+
+/-- The same for every finite binary64 bit pattern: part of the trusted base (not an axiom: a hypothesis). -/
+def FloatTextOk : Prop := ∀ x, x < two64 → floatNonFinite x = false → floatOk x = true
+
+mutual
+  theorem dokV : ∀ (v : TV), JWF v = true →
+      (∀ t ∈ v.flatten, ∀ x, t.body = .float x → x < two64 → floatNonFinite x = false → floatOk x = true) →
+      DOk v = true
+    | .scalar t, h, hf => by
+      have hj : jsonScalarOk t = true := by simpa [JWF] using h
+      have hf' := hf t (by simp [TV.flatten])
+      unfold jsonScalarOk at hj
+      cases hb : t.body <;> simp [hb] at hj <;> simp [DOk, decOk, hb, hj]
+      rename_i x
+      exact hf' x hb hj.1 hj.2
+    | .arr tag len items, h, hf => by
+      simp only [DOk]
+      exact dokL items (by simpa [JWF] using h) (fun t ht => hf t (by simp [TV.flatten, ht]))
+    | .map tag len es, h, hf => by
+      simp only [DOk]
+      exact dokE es (by simpa [JWF] using h) (fun t ht => hf t (by simp [TV.flatten, ht]))
+  theorem dokL : ∀ (vs : List TV), JWFl vs = true →
+      (∀ t ∈ TV.flattenList vs, ∀ x, t.body = .float x → x < two64 → floatNonFinite x = false → floatOk x = true) →
+      DOkL vs = true
+    | [], _, _ => rfl
+    | v :: vs, h, hf => by
+      simp only [JWFl, Bool.and_eq_true] at h
+      simp only [DOkL, Bool.and_eq_true]
+      exact ⟨dokV v h.1 (fun t ht => hf t (by simp [TV.flattenList, ht])),
+        dokL vs h.2 (fun t ht => hf t (by simp [TV.flattenList, ht]))⟩
+  theorem dokE : ∀ (es : List (TV × TV)), JWFe es = true →
+      (∀ t ∈ TV.flattenEntries es, ∀ x, t.body = .float x → x < two64 → floatNonFinite x = false → floatOk x = true) →
+      DOkE es = true
+    | [], _, _ => rfl
+    | (k, v) :: es, h, hf => by
+      simp only [JWFe, Bool.and_eq_true] at h
+      obtain ⟨⟨hk, hv⟩, hes⟩ := h
+      obtain ⟨s, tag, rfl⟩ := key_form hk
+      simp only [DOkE, Bool.and_eq_true]
+      exact ⟨⟨trivial, dokV v hv (fun t ht => hf t (by simp [TV.flattenEntries, ht]))⟩,
+        dokE es hes (fun t ht => hf t (by simp [TV.flattenEntries, ht]))⟩
+end
+
+/-- a tree without float tokens needs no hypothesis -/
+theorem floatsOk_of_noFloat {v : TV} (h : ∀ t ∈ v.flatten, ∀ x, t.body ≠ .float x) : FloatsOk v :=
+  fun t ht x hb => absurd hb (h t ht x)
+
+theorem dok_of_floatsOk {v : TV} (h : JWF v = true) (hf : FloatsOk v) : DOk v = true :=
+  dokV v h (fun t ht x hb _ _ => hf t ht x hb)
+
+theorem dok_of_floatTextOk {v : TV} (h : JWF v = true) (hf : FloatTextOk) : DOk v = true :=
+  dokV v h (fun _ _ x _ h1 h2 => hf x h1 h2)
+
+theorem trailer_ws {c : Cfg} (hw : CfgWs c) (v : TV) : WsOnly (trailer c v) := by
+  cases v <;> first | exact WsOnly.nil | exact hw.line
+
+/-- `enc_valid` on the domain `DOk` -/
+theorem enc_valid_dok (c : Cfg) (v : TV) (h : JWF v = true) (hc : cfgOk c = true) (hd : DOk v = true) :
     (Spec.Json.parse (out c v)).map (fun p => (p.1.flatten, p.2)) =
       some (v.flatten.map Spec.Json.retypeTok, trailer c v) := by
-  sorry
+  have hw := cfgOk_ws hc
+  rw [(run_eq c v h).2]
+  unfold Spec.Json.parse
+  have h1 := needV_le v
+  have h2 := lenV c v hd 0
+  rw [parseV c hw v hd _ 0 (trailer c v) (by simp only [List.length_append]; omega) (Stop_ws _ (trailer_ws hw v))]
+  simp [retV_flatten]
+
+/-- `roundtrip` on the domain `DOk` -/
+theorem roundtrip_dok (c : Cfg) (v : TV) (h : JWF v = true) (hc : cfgOk c = true) (hd : DOk v = true) :
+    let o := JsonDec.decode (Rd.ofBytes (out c v))
+    o.toks = v.flatten.map Spec.Json.retypeTok ∧ o.res = .ok () := by
+  have hw := cfgOk_ws hc
+  have h2 := lenV c v hd 0
+  have := decTop c hw v hd (2 * (out c v).length + 2) (trailer c v) (Stop_ws _ (trailer_ws hw v))
+    (by rw [(run_eq c v h).2]; simp only [List.length_append]; omega)
+  rw [← (run_eq c v h).2] at this
+  exact this
+
+/-! ### Theorems -/
+
+theorem enc_accepts (c : Cfg) (v : TV) (h : JWF v = true) :
+    (runOut (step c FloatText.jsonFloat) init v.flatten).1 =
+      List.replicate (v.flatten.length - 1) Flag.cont ++ [Flag.done] :=
+  (run_eq c v h).1
+
+/-- The statement of `enc_valid` as first written.  It is not refuted; it is true exactly when the float
+    texts are sound (`FloatTextOk`, see `enc_valid_of_floatTextOk`), a fact about the big-number routines
+    `FloatText.shortest` / `parseDecimal` that is part of the trusted base and is not proved here. -/
+def enc_valid_statement : Prop :=
+  ∀ (c : Cfg) (v : TV), JWF v = true → cfgOk c = true →
+    (Spec.Json.parse (out c v)).map (fun p => (p.1.flatten, p.2)) =
+      some (v.flatten.map Spec.Json.retypeTok, trailer c v)
+
+/-- `enc_valid` with the float hypothesis made explicit for the tree at hand
+    (vacuous for trees without float tokens; `floatOk` is a Boolean function that can be evaluated). -/
+theorem enc_valid_partial (c : Cfg) (v : TV) (h : JWF v = true) (hc : cfgOk c = true) (hf : FloatsOk v) :
+    (Spec.Json.parse (out c v)).map (fun p => (p.1.flatten, p.2)) =
+      some (v.flatten.map Spec.Json.retypeTok, trailer c v) :=
+  enc_valid_dok c v h hc (dok_of_floatsOk h hf)
+
+theorem enc_valid_of_floatTextOk (hF : FloatTextOk) : enc_valid_statement :=
+  fun c v h hc => enc_valid_dok c v h hc (dok_of_floatTextOk h hF)
+
+/-- Conversely the first statement already contains the float hypothesis (take a top-level float):
+    `enc_valid_statement` and `FloatTextOk` are the same proposition. -/
+theorem floatTextOk_of_enc_valid (hS : enc_valid_statement) : FloatTextOk := by
+  intro x hx hfin
+  have hj : JWF (.scalar ⟨.float x, none⟩) = true := by simp [JWF, jsonScalarOk, hx, hfin]
+  have h1 := hS ⟨none, []⟩ (.scalar ⟨.float x, none⟩) hj (by decide)
+  rw [(run_eq _ _ hj).2] at h1
+  simp only [txtV, scalarTxt, trailer, List.append_nil] at h1
+  cases hp : Spec.Json.parse (FloatText.jsonFloat x) with
+  | none => simp [hp] at h1
+  | some p =>
+    simp only [hp, Option.map_some, Option.some.injEq, Prod.mk.injEq] at h1
+    exact floatOk_of_parse x p hp h1.2
+
+theorem enc_valid_iff_floatTextOk : enc_valid_statement ↔ FloatTextOk :=
+  ⟨floatTextOk_of_enc_valid, enc_valid_of_floatTextOk⟩
 
 theorem pretty_is_compact (c : Cfg) (v : TV) (h : JWF v = true) (hc : cfgOk c = true) :
     Spec.Json.stripWs (out c v) false false = out ⟨none, []⟩ v := by
-  sorry
+  have hw := cfgOk_ws hc
+  rw [(run_eq c v h).2, (run_eq ⟨none, []⟩ v h).2, stripV c hw v h]
+  have h1 : trailer ⟨none, []⟩ v = [] := by cases v <;> rfl
+  have h2 : Spec.Json.stripWs (trailer c v) false false = [] := by
+    have := stripWs_ws (trailer c v) [] (by cases v <;> first | exact WsOnly.nil | exact hw.line)
+    simpa [Spec.Json.stripWs] using this
+  rw [h1, h2]
 
-theorem roundtrip (c : Cfg) (v : TV) (h : JWF v = true) (hc : cfgOk c = true) :
+/-- The statement of `roundtrip` as first written; as for `enc_valid_statement` it is not refuted, and it
+    follows from the soundness of the float texts (`roundtrip_of_floatTextOk`). -/
+def roundtrip_statement : Prop :=
+  ∀ (c : Cfg) (v : TV), JWF v = true → cfgOk c = true →
     let o := JsonDec.decode (Rd.ofBytes (out c v))
-    o.toks = v.flatten.map Spec.Json.retypeTok ∧ o.res = .ok () := by
-  sorry
+    o.toks = v.flatten.map Spec.Json.retypeTok ∧ o.res = .ok ()
+
+/-- `roundtrip` with the float hypothesis made explicit for the tree at hand. -/
+theorem roundtrip_partial (c : Cfg) (v : TV) (h : JWF v = true) (hc : cfgOk c = true) (hf : FloatsOk v) :
+    let o := JsonDec.decode (Rd.ofBytes (out c v))
+    o.toks = v.flatten.map Spec.Json.retypeTok ∧ o.res = .ok () :=
+  roundtrip_dok c v h hc (dok_of_floatsOk h hf)
+
+theorem roundtrip_of_floatTextOk (hF : FloatTextOk) : roundtrip_statement :=
+  fun c v h hc => roundtrip_dok c v h hc (dok_of_floatTextOk h hF)
 
 example : out ⟨some [10], [32]⟩ (.arr none 2 [.scalar ⟨.null, none⟩, .arr (some 3) (-1) [.scalar ⟨.bool true, none⟩]])
     = [91, 10, 32, 110, 117, 108, 108, 44, 10, 32, 91, 10, 32, 32, 116, 114, 117, 101, 10, 32, 93, 10, 93, 10] := by
